@@ -155,6 +155,16 @@ def run_unit(unit, ctx):
         R.stats.inc("repeat_checks")
         if not np.array_equal(T, T2):
             R.add([K.V("transform:not-repeatable", "two transform calls returned different values", **w)])
+        # list input and (for a single feature column) 1-D input are the same data
+        T3 = np.asarray(ad.transform(X.tolist()), dtype=float)
+        R.stats.inc("list_input_checks")
+        if T3.shape != T.shape or not np.array_equal(T3, T):
+            R.add([K.V("transform:list-input-differs", "transform(list of rows) differs from transform(ndarray)", **w)])
+        if width == 1:
+            T4 = np.asarray(ad.transform(X.reshape(-1).copy()), dtype=float)
+            R.stats.inc("one_dimensional_input_checks")
+            if T4.shape != T.shape or not np.array_equal(T4, T):
+                R.add([K.V("transform:1d-input-differs", "transform(1-D array) differs from transform(column matrix)", **w)])
         # mahalanobis
         M = np.asarray(ad.mahalanobis(X.copy()), dtype=float)
         R.stats.inc("mahalanobis_checks")
